@@ -1249,6 +1249,9 @@ class Engine:
 
     def loop_spec(self, node):
         """loops are keyed by their ordinal in SOURCE order within the function (nested defs excluded)"""
+        syn = getattr(self, 'synthetic_specs', {}).get(id(node))
+        if syn is not None:
+            return syn            # a level of a desugared product / combinations loop: (ordinal of the source loop, its level spec)
         fr = self.frames[-1]
         if 'loop_ids' not in fr:
             loops = [n for n in ast.walk(fr['node']) if isinstance(n, (ast.For, ast.While))]
@@ -1368,7 +1371,84 @@ class Engine:
             raise PathEnd()
         self.assume(toz(znot(guard)))
 
+    def desugar_nest(self, s, env):
+        """`for T in product(A, B)` / `for (a, b) in combinations(R, 2)` / `for (w, (a, b)) in product(R, combinations(D, 2))` over
+        integer ranges: the same iterations, in the same order, as the nested loops  for .. in A: for .. in B  resp.
+        for a in R: for b in range(a+1, hi).  Returns a synthesized ast.For (its levels carry the specs loops[k]['nest'][level])
+        or None when the loop is not of that shape."""
+        if not isinstance(s.iter, ast.Call) or s.iter.keywords:
+            return None
+        k, spec = self.loop_spec(s)
+        if spec is None or 'nest' not in spec:
+            return None
+        fn = self.eval(s.iter.func, env)
+        imp = self.modinfo['imports']
+
+        def is_lib(f, name):
+            return isinstance(f, tuple) and f[0] == 'global' and (imp.get(f[1]) == ('itertools', name) or
+                                                                  (f[1] == 'itertools.' + name and imp.get('itertools') == ('itertools', None)))
+        self.nest_n = getattr(self, 'nest_n', 0)
+        levels = []                 # (target ast, iter ast) outermost first
+
+        def bind_range(expr):
+            v = self.eval_iter(expr, env)
+            if isinstance(v, VTuple) and all(isinstance(x, int) for x in v.items) and v.items == list(range(v.items[0], v.items[0] + len(v.items))) if isinstance(v, VTuple) and v.items else False:
+                v = VRange(v.items[0], v.items[0] + len(v.items), 1)
+            if not (isinstance(v, VRange) and v.step == 1):
+                raise Unsupported('product / combinations over something else than integer ranges (line {})'.format(s.lineno))
+            self.nest_n += 1
+            lo, hi = '__nest_lo{}'.format(self.nest_n), '__nest_hi{}'.format(self.nest_n)
+            env[lo], env[hi] = v.lo, v.hi
+            return lo, hi
+
+        def rng(lo_src, hi_src):
+            return ast.parse('range({}, {})'.format(lo_src, hi_src), mode='eval').body
+
+        def add(expr, target):
+            if isinstance(expr, ast.Call) and not expr.keywords and is_lib(self.eval(expr.func, env), 'combinations') \
+                    and len(expr.args) == 2 and isinstance(expr.args[1], ast.Constant) and expr.args[1].value == 2:
+                if not (isinstance(target, ast.Tuple) and len(target.elts) == 2 and all(isinstance(x, ast.Name) for x in target.elts)):
+                    raise Unsupported('combinations(.., 2) needs a target (a, b)')
+                lo, hi = bind_range(expr.args[0])
+                levels.append((target.elts[0], rng(lo, hi)))
+                levels.append((target.elts[1], rng(target.elts[0].id + ' + 1', hi)))
+            else:
+                if not isinstance(target, ast.Name):
+                    raise Unsupported('range level needs a plain name target')
+                lo, hi = bind_range(expr)
+                levels.append((target, rng(lo, hi)))
+
+        if is_lib(fn, 'product'):
+            if not (isinstance(s.target, ast.Tuple) and len(s.target.elts) == len(s.iter.args)):
+                raise Unsupported('product(...) needs one target per factor')
+            for expr, tgt in zip(s.iter.args, s.target.elts):
+                add(expr, tgt)
+        elif is_lib(fn, 'combinations'):
+            add(s.iter, s.target)
+        else:
+            return None
+        if len(spec['nest']) != len(levels):
+            raise Unsupported('loop #{}: {} nest levels declared, {} needed'.format(k, len(spec['nest']), len(levels)))
+        self.synthetic_specs = getattr(self, 'synthetic_specs', {})
+        body = list(s.body)
+        node = None
+        for lvl in range(len(levels) - 1, -1, -1):
+            tgt, it = levels[lvl]
+            node = ast.For(target=ast.Name(id=tgt.id, ctx=ast.Store()), iter=it, body=body, orelse=[], lineno=s.lineno, col_offset=s.col_offset,
+                           end_lineno=s.end_lineno, end_col_offset=s.end_col_offset)
+            ast.fix_missing_locations(node)
+            self.synthetic_specs[id(node)] = (k, spec['nest'][lvl])
+            self.keep_alive = getattr(self, 'keep_alive', []) + [node]
+            body = [node]
+        if s.orelse:
+            raise Unsupported('for/else over a product')
+        return node
+
     def exec_for(self, s, env):
+        if id(s) not in getattr(self, 'synthetic_specs', {}):
+            nested = self.desugar_nest(s, env)
+            if nested is not None:
+                return self.exec_for(nested, env)
         it = self.eval_iter(s.iter, env)
         if isinstance(it, VTuple):                       # concrete: unroll
             k, spec = self.loop_spec(s)
@@ -1409,7 +1489,7 @@ class Engine:
             self.oblige('hint', 'range step is positive and the loop makes [{}] iterations'.format(spec['niter']),
                         z3.And(step > 0, niter >= 0, lo + niter * step >= hi, z3.Or(niter == 0, lo + (niter - 1) * step < hi)),
                         s.lineno, decisive=False)
-            elem = lambda i: lo + i * step
+            elem = lambda i: z3.simplify(lo + i * step)
         elif isinstance(it, VRange):
             step = it.step
             if not isinstance(step, int) or step == 0:
@@ -1419,7 +1499,7 @@ class Engine:
                 niter = z3.If(hi > lo, (hi - lo + step - 1) / step, 0)
             else:
                 niter = z3.If(lo > hi, (lo - hi + (-step) - 1) / (-step), 0)
-            elem = lambda i: lo + i * step
+            elem = lambda i: z3.simplify(lo + i * step)
         elif isinstance(it, VSeq):
             if it.sortname == 'ISeq':
                 niter = specs.ilen(it.term)
@@ -1485,6 +1565,8 @@ class Engine:
             self.assume_inv(t, env, [h for h in hv if h not in tnames and h != itname])
         if self.choose(2) == 0:
             self.assume(i < niter)
+            if not self.feasible(z3.BoolVal(True)):
+                raise PathEnd()          # the loop cannot make an iteration on this path (e.g. an empty range): nothing to check
             try:
                 self.exec_block(s.body, env)
             except BreakSig:
@@ -1689,6 +1771,12 @@ class Engine:
             return VSeq(t)
         if isinstance(op, ast.Add) and isinstance(a, VSeq) and isinstance(b, VSeq) and a.sortname == 'ISeq' and b.sortname == 'ISeq':
             return VSeq(specs.iapp(a.term, b.term))
+        if isinstance(op, ast.Add) and isinstance(b, VSeq) and b.sortname == 'ISeq' and isinstance(a, VTuple) and a.kind == 'list' \
+                and all(isinstance(x, int) or (is_z3(x) and z3.is_int(x)) for x in a.items):
+            t = specs.inil                 # [x, y, ...] + abstract literal list
+            for x in a.items:
+                t = specs.isnoc(t, toz(x))
+            return VSeq(specs.iapp(t, b.term))
         if isinstance(a, VTuple) and isinstance(op, ast.Mult) and isinstance(b, int):
             return VTuple(a.items * b, a.kind)
         if isinstance(op, ast.Add) and isinstance(a, VRowText) and isinstance(b, str) and not b.startswith('<'):
@@ -2955,7 +3043,14 @@ def sf_created(eng, node, cls, i):
     """the i-th object of class model `cls` created (or returned by a contracted callee) during the call"""
     objs = eng.created.get(cls, [])
     if i >= len(objs):
-        raise SpecError('no created object {}[{}]'.format(cls, i))
+        # not created on this path (e.g. `if V > 0: r = new_block(V)`): an unconstrained object of that class; statements about
+        # it are then about nothing in particular, which is right wherever the code does not use it either
+        cache = eng.__dict__.setdefault('absent_objects', {})
+        if (cls, i, eng.paths) not in cache:
+            if cls not in eng.classmodels:
+                raise SpecError('no created object {}[{}]'.format(cls, i))
+            cache[(cls, i, eng.paths)] = eng.fresh_obj('absent_{}_{}'.format(cls, i), cls)
+        return cache[(cls, i, eng.paths)]
     return objs[i]
 
 
@@ -3090,7 +3185,23 @@ def sf_evrowt(eng, node, prefix, sep, suffix, clause):
     return VSeq(specs.evrow(z3.IntVal(template_id('row:{}[{}]{}'.format(prefix, sep, suffix))), _term(clause)))
 
 
+def sf_mapcall(eng, node, g, n, m, index):
+    """the value of a unary mapping call p(*index): row u / column v (lists, in order) or the single variable p[u,v]"""
+    if not (isinstance(index, VTuple) and len(index.items) == 2):
+        raise SpecError('mapcall: index is not a pair')
+    u, v = index.items
+    j = z3.Int('lam!j')
+    if u is not None and v is None:
+        return VSeq(specs.mrow(toz(g), toz(u), toz(m)))
+    if u is None and v is not None:
+        return VSeq(specs.mcol(toz(g), toz(v), toz(n)))
+    if u is not None and v is not None:
+        return specs.mvar(toz(g), toz(u), toz(v))
+    raise SpecError('mapcall: both components are None')
+
+
 SPEC_FUNCS = {
+    'mapcall': sf_mapcall, 'mrow': _wrap(specs.mrow), 'mcol': _wrap(specs.mcol),
     'evnest': _wrap(specs.evnest), 'dedges': _wrap(specs.dedges),
     'yxdom': _wrap(specs.yxdom),
     'evopaque': lambda eng, node: VSeq(specs.evopaque), 'opq': _wrap(specs.opq), 'wid': _wrap(specs.wid),
